@@ -69,7 +69,13 @@ pub fn addr(i: usize) -> SocketAddr {
                 "192.0.2.255:3478",
                 "100.64.0.1:3478",
             ];
-            SPECIAL[i - 8].parse().unwrap()
+            // #13 carries an IPv6 zone, #29 a zone and a flow label (part of the socket address: the
+            // same link-local address behind two interfaces is two peers)
+            match i {
+                13 => "[fe80::1%3]:3478".parse().unwrap(),
+                29 => SocketAddr::V6(std::net::SocketAddrV6::new("fe80::1".parse().unwrap(), 3478, 0x000a_bcde, 7)),
+                _ => SPECIAL[i - 8].parse().unwrap(),
+            }
         }
         _ if i % 3 == 0 => format!("[2001:db8:77::{:x}]:{}", i, 20000 + i).parse().unwrap(),
         _ => format!("100.{}.{}.{}:{}", 64 + i / 4096, (i / 16) % 256, i % 256, 20000 + i).parse().unwrap(),
@@ -492,6 +498,12 @@ pub fn build_send<'a>(kind: MsgKind, tid: usize, seal: Sealing, payload: u16) ->
         };
         let _ = b.add_raw_attribute(RawAttribute::new(AttributeType::new(t), &vec![fill; n]).into_owned());
     }
+    // now and then twenty more small attributes (beyond any inline capacity of a builder's bookkeeping)
+    if payload % 50 == 49 {
+        for j in 0..20u16 {
+            let _ = b.add_raw_attribute(RawAttribute::new(AttributeType::new(0x7e00 + j), &vec![j as u8; (j % 4) as usize]).into_owned());
+        }
+    }
     if impure_payload(payload) && seal == Sealing::None {
         let _ = b.add_attribute(&COUNTING_ATTR);
     }
@@ -744,6 +756,8 @@ struct Eng<'c> {
     last_wait: Option<u64>,
     /// whether the monitor also looks through `mut_request_transaction` after every call
     observe_mut: bool,
+    /// ids of responses that were dropped while no transaction with that id was outstanding
+    strays: std::collections::BTreeSet<usize>,
     res: RunResult,
     transport: TransportType,
     failed: bool,
@@ -1527,6 +1541,7 @@ impl<'c> Eng<'c> {
                 );
             } else {
                 self.ctx.count("response-dropped-unknown-tid");
+                self.strays.insert(i);
             }
             return;
         };
@@ -1566,6 +1581,19 @@ impl<'c> Eng<'c> {
             );
             return;
         } else if !delivered && must_deliver {
+            // C05: "messages for unknown transaction ids change nothing ... an id becomes reusable": a
+            // response with this id was dropped earlier, while no such transaction was outstanding;
+            // that must not be why the response of the transaction that now uses the id is dropped
+            if self.ctx.prop == "C05" && self.strays.contains(&i) {
+                self.fail("C05", "unknown-id-message-changes-nothing", "StunAgent::handle_stun", "response-dropped-after-a-stray-one-with-its-id", format!("StunResponse: {why}"), rname);
+                return;
+            }
+            // C15: "dropped messages ... never validate": whatever made the agent drop this response,
+            // its sender must not have become a validated peer by it
+            if self.ctx.prop == "C15" && !self.model.validated.contains(&(from % NADDR)) && self.agent.is_validated_peer(from_a) {
+                self.fail("C15", "validated-peers", "StunAgent::handle_stun", "dropped-response-validated-its-sender", format!("is_validated_peer({from_a}) = false after a Drop"), "true".into());
+                return;
+            }
             self.fail(
                 "C07",
                 "authentic-response-delivered",
@@ -1886,6 +1914,7 @@ pub fn run_history(ctx: &mut Ctx, h: &History, cfg: &RunCfg) -> RunResult {
         now: 0,
         last_wait: None,
         observe_mut: (h.ops.len() + h.remote0.unwrap_or(0) as usize) % 2 == 0,
+        strays: Default::default(),
         res: RunResult::default(),
         transport,
         failed: false,
